@@ -110,6 +110,10 @@ RULE = (
     "sqrt(alpha) r = 1e-3..10, on the centres, on the old origin; the unshifted molecule too), coefficients scaled by 2^-900 .. 2^900 / 1e-50 .. 1e12, "
     "special inputs (no s / no p / no functions at all, no points, one point on the one centre, all points on centres, coincident centres with equal / "
     "different exponents / cancelling coefficients, zero coefficients, a zero coefficient on a rejected exponent, points one threshold away along an axis). "
+    "Round 3b: one float64 radial array object (r[0] = 0, radii below the switch, ordinary radii; plain / read-only / strided / slice of a larger array / "
+    "2-D C and Fortran / reversed view / column of a matrix) through a sequence of coulomb_gaussian_s / _p calls with several exponents, every answer "
+    "against the generated closed form at the ORIGINAL radii, array and owner unchanged; the oracle does the same against the mpmath closed form and for "
+    "the points / centres / coefficient / exponent arrays of coulomb_potential over several calls. "
     "Non-trivial = a scalar case with "
     "0 < sqrt(alpha) r < 6 (erf neither 0 nor saturated) or r within a factor 4 of the switch threshold; a multi-centre case with "
     ">= 2 functions and >= 1 point; a loader case whose text differs from the stored key or that starts from an empty cache"
@@ -295,6 +299,8 @@ def corr(ctx: Ctx):
 
     # -- container kinds / dtypes / call paths of the scalar functions -----------------------------
     _corr_scalar_containers(ctx, cb, thr)
+    # -- round 3b: one array object reused over a sequence of calls ------------------------------------
+    _corr_reuse(ctx, cb, thr)
 
     # -- the hand-written corrected p formula is what mpmath's Coulomb integral gives ------
     pts = [(0.0, 1.0), (0.0, 3.0), (0.5, 3.0), (2.0, 3.0), (1.0, 1.0), (0.1, 7.5), (3.0, 0.3), (1e-13, 2.0),
@@ -1671,6 +1677,270 @@ def _oracle_round3(ctx: Ctx, cb, utils, thr, large):
         _check_load_history(ctx, cb, utils, raw_float, hist, "keys without parameters between successful loads")
 
 
+# ----------------------------------------------------------------------------
+# round 3b: the same argument array reused across calls
+# ----------------------------------------------------------------------------
+REUSE_VARIANTS = ("plain", "readonly", "strided", "slice-of-larger", "2d", "2d-fortran", "reversed-view", "column-of-matrix")
+
+REUSE_BUILD = """def build(base, variant):
+    # -> (array handed to the library, its owner [the array whose memory it shares], is the array writeable?)
+    base = np.array(base, dtype=float)
+    n = len(base)
+    if variant == 'plain':
+        a = base.copy(); return a, a
+    if variant == 'readonly':
+        a = base.copy(); a.setflags(write=False); return a, a
+    if variant == 'strided':
+        big = np.full(2 * n + 1, 7.25); big[1::2] = base; return big[1::2], big
+    if variant == 'slice-of-larger':
+        big = np.full(n + 7, 7.25); big[3:3 + n] = base; return big[3:3 + n], big
+    if variant == '2d':
+        a = base[: n - n % 2].reshape(2, -1).copy(); return a, a
+    if variant == '2d-fortran':
+        a = np.asfortranarray(base[: n - n % 2].reshape(2, -1)); return a, a
+    if variant == 'reversed-view':
+        big = base[::-1].copy(); return big[::-1], big
+    if variant == 'column-of-matrix':
+        big = np.full((n, 3), 7.25); big[:, 1] = base; return big[:, 1], big
+    raise KeyError(variant)
+"""
+exec(REUSE_BUILD)  # noqa: S102 - defines build(); the same text is the head of the replay snippets
+
+SNIPPET_REUSE = """import warnings; warnings.filterwarnings('ignore')
+import mpmath as mp, numpy as np
+from grid.coulomb import coulomb_gaussian_s, coulomb_gaussian_p
+mp.mp.dps = 30
+""" + REUSE_BUILD + """
+base, variant = {base!r}, {variant!r}
+calls = {calls!r}          # (kind, alpha, normalized) in sequence on ONE array object (a contraction on one radial grid)
+arr, owner = build(base, variant)
+orig, owner0 = arr.copy(), owner.copy()
+def closed_form(kind, a, r, nz):
+    # s: erf(sqrt(a) r)/r = Coulomb integral of the documented density (limit 2 sqrt(a/pi) at r = 0);
+    # p: the formula of the docstring (its constants are a listed finding of their own)
+    A, R = mp.mpf(a), mp.mpf(r)
+    v = mp.erf(mp.sqrt(A) * R) / R if R > 0 else 2 * mp.sqrt(A / mp.pi)
+    if kind == 's':
+        return v if nz else v * (mp.pi / A) ** mp.mpf('1.5')
+    v += mp.mpf(4) / 3 * mp.sqrt(A / mp.pi) * mp.exp(-A * R * R)
+    return v if nz else v * mp.mpf(3) / 2 * mp.pi ** mp.mpf('1.5') / A ** mp.mpf('2.5')
+for k, (kind, a, nz) in enumerate(calls):
+    f = coulomb_gaussian_s if kind == 's' else coulomb_gaussian_p
+    got = f(arr, a, normalized=nz)
+    assert got.shape == orig.shape, f'call {{k + 1}}: shape {{got.shape}}'
+    for g, r in zip(got.ravel(), orig.ravel()):      # against the radii the caller put into the array
+        ref = closed_form(kind, a, r, nz)
+        assert abs(g - ref) <= 1e-10 * abs(ref), f'call {{k + 1}} of {{len(calls)}} on the same array: coulomb_gaussian_{{kind}}(r={{r!r}}, alpha={{a!r}}, normalized={{nz}}) = {{g!r}}, closed form {{mp.nstr(ref, 17)}}'
+    assert np.array_equal(arr, orig) and np.array_equal(owner, owner0), f'call {{k + 1}}: the array of the caller was modified: {{arr.ravel().tolist()}} (was {{orig.ravel().tolist()}})'
+"""
+
+SNIPPET_REUSE_POT = """import warnings; warnings.filterwarnings('ignore')
+import mpmath as mp, numpy as np
+from grid.coulomb import coulomb_potential, coulomb_gaussian_s, coulomb_gaussian_p
+mp.mp.dps = 40
+""" + REUSE_BUILD + """
+args, variant = {args!r}, {variant!r}
+calls = {calls!r}          # (use the p arguments?, normalized) in sequence on the SAME array objects
+objs, owners = {{}}, {{}}
+for k, v in args.items():
+    if k in ('points', 'centers_s', 'centers_p'):
+        a, o = build(np.array(v, dtype=float).reshape(-1, 3).ravel(), variant if variant not in ('2d', '2d-fortran', 'column-of-matrix') else 'plain')
+        a = a.reshape(-1, 3) if a.flags.c_contiguous or a.ndim > 1 else np.lib.stride_tricks.as_strided(a, shape=(len(v), 3), strides=(3 * a.strides[0], a.strides[0]), writeable=a.flags.writeable)
+    else:
+        a, o = build(v, variant if variant not in ('2d', '2d-fortran') else 'plain')
+    objs[k], owners[k] = a, o
+orig = {{k: v.copy() for k, v in objs.items()}}; owners0 = {{k: v.copy() for k, v in owners.items()}}
+P = np.array(args['points'], dtype=float).reshape(-1, 3)
+for n, (with_p, nz) in enumerate(calls):
+    kw = dict(objs) if with_p else {{k: v for k, v in objs.items() if not k.endswith('_p')}}
+    got = coulomb_potential(**kw, normalized=nz)
+    want = np.zeros(len(P)); scale = np.zeros(len(P))
+    for kind, f in (('s', coulomb_gaussian_s), ('p', coulomb_gaussian_p)):
+        if kind == 'p' and not with_p:
+            continue
+        for c, a, ctr in zip(args['coeffs_' + kind], args['alphas_' + kind], args['centers_' + kind]):
+            r = np.array([float(mp.sqrt(sum((mp.mpf(x) - mp.mpf(y)) ** 2 for x, y in zip(pt, ctr)))) for pt in args['points']])
+            v = f(r, a, normalized=nz); want = want + c * v; scale = scale + abs(c) * np.abs(v)
+    assert got.shape == want.shape and np.all(np.abs(got - want) <= 1e-11 * scale + 1e-300), f'call {{n + 1}} on the same argument arrays: coulomb_potential = {{got.tolist()}}, weighted sum at the ORIGINAL coordinates = {{want.tolist()}}'
+    for k in objs:
+        assert np.array_equal(objs[k], orig[k]) and np.array_equal(owners[k], owners0[k]), f'call {{n + 1}}: the array of the caller {{k}} was modified'
+"""
+
+
+def _closed_form_mp(kind, a, r, nz):
+    """s: erf(sqrt(a) r)/r -- the Coulomb integral of the documented density (GridVerif.C17.s_closed_form_is_coulomb_integral; limit
+    s_origin_is_coulomb_integral); p: the formula the docstring states (its constants are the listed finding; a deviation from it is
+    reported under its own key)."""
+    mp = _mp()
+    A, R = mp.mpf(a), mp.mpf(r)
+    v = mp.erf(mp.sqrt(A) * R) / R if R > 0 else 2 * mp.sqrt(A / mp.pi)
+    if kind == "s":
+        return v if nz else v * (mp.pi / A) ** mp.mpf("1.5")
+    v += mp.mpf(4) / 3 * mp.sqrt(A / mp.pi) * mp.exp(-A * R * R)
+    return v if nz else v * mp.mpf(3) / 2 * mp.pi ** mp.mpf("1.5") / A ** mp.mpf("2.5")
+
+
+def _reuse_base(ctx: Ctx, thr):
+    """A radial grid as a caller has it: r[0] = 0, radii below the switch, ordinary radii (14 entries)."""
+    return [0.0, 1e-13, 5e-324, thr / 2, float(np.nextafter(thr, 0)), thr, 1e-9, 1e-4, 0.01, 10.0 ** ctx.rng.uniform(-2, 0), 0.5, 1.0,
+            ctx.rng.uniform(1, 4), 7.0]
+
+
+def _reuse_calls(ctx: Ctx, n):
+    """A contraction: several exponents (<= 1e8: the small-r branch is exact to rounding there) for s and p on one grid."""
+    al = [10.0 ** ctx.rng.uniform(-2, 8) for _ in range(3)] + [1.0]
+    return [(ctx.rng.choice("sp") if k else "s", ctx.rng.choice(al), ctx.rng.random() < 0.7) for k in range(n)]
+
+
+def _check_reuse_scalar(ctx: Ctx, cb, base, variant, calls, where="one radial array reused"):
+    """One array object handed to coulomb_gaussian_s / _p several times: every value against the closed form at the ORIGINAL radii,
+    the array (and the memory it is a view of) unchanged.  True if a failure was recorded."""
+    mp = _mp()
+    arr, owner = build(base, variant)  # noqa: F821 - defined by exec(REUSE_BUILD)
+    orig, owner0 = arr.copy(), owner.copy()
+    snippet = SNIPPET_REUSE.format(base=list(map(float, base)), variant=variant, calls=[(k, float(a), bool(nz)) for k, a, nz in calls])
+    for n, (kind, a, nz) in enumerate(calls):
+        fn = cb.coulomb_gaussian_s if kind == "s" else cb.coulomb_gaussian_p
+        key = f"coulomb.coulomb_gaussian_{kind}:reused-array"
+        desc = f"{where} ({variant}; call {n + 1} of {[(k, float(x), z) for k, x, z in calls[:n + 1]]} on the same float64 array object)"
+        try:
+            with np.errstate(all="ignore"):
+                got = fn(arr, a, normalized=nz)
+        except Exception as e:  # noqa: BLE001
+            ctx.fail("oracle", key, f"{desc}: coulomb_gaussian_{kind} raised {type(e).__name__}: {e} for non-negative radii {orig.ravel().tolist()} and alpha={a!r}",
+                     witness={"r": orig.ravel().tolist(), "variant": variant, "calls": calls[:n + 1]}, snippet=snippet)
+            return True
+        if not isinstance(got, np.ndarray) or got.shape != orig.shape:
+            ctx.fail("oracle", key, f"{desc}: result of shape {np.shape(got)} for radii of shape {orig.shape}", witness={"variant": variant}, snippet=snippet)
+            return True
+        for g, r in zip(got.ravel(), orig.ravel()):
+            ref = _closed_form_mp(kind, a, float(r), nz)
+            if not abs(float(g) - ref) <= 1e-10 * abs(ref):
+                now = float(arr.ravel()[list(orig.ravel()).index(r)])
+                ctx.fail("oracle", key,
+                         f"{desc}: coulomb_gaussian_{kind} at the caller's radius r={float(r)!r}, alpha={a!r}, normalized={nz} returned {float(g)!r}; the closed form "
+                         f"at that radius is {mp.nstr(ref, 17)}" + (f" (the array entry now reads {now!r}: an earlier call overwrote the caller's radius)" if now != float(r) else ""),
+                         witness={"r": float(r), "alpha": a, "normalized": nz, "radii": orig.ravel().tolist(), "array_now": arr.ravel().tolist(),
+                                  "variant": variant, "calls": calls[:n + 1], "got": float(g), "reference": mp.nstr(ref, 20)}, snippet=snippet)
+                return True
+    if not (np.array_equal(arr, orig) and np.array_equal(owner, owner0)):
+        ctx.fail("oracle", "coulomb.coulomb_gaussian_" + calls[0][0] + ":reused-array",
+                 f"{where} ({variant}): after {len(calls)} calls the caller's array reads {arr.ravel().tolist()}, it was {orig.ravel().tolist()}",
+                 witness={"radii": orig.ravel().tolist(), "array_now": arr.ravel().tolist(), "variant": variant, "calls": calls}, snippet=snippet)
+        return True
+    return False
+
+
+def _build_pot_objs(args, variant):
+    """The argument arrays of coulomb_potential as `variant` views (matrices: the flat data built as the variant, then viewed as (N, 3))."""
+    objs, owners = {}, {}
+    for k, v in args.items():
+        if v is None:
+            continue
+        if k in ("points", "centers_s", "centers_p"):
+            a, o = build(np.array(v, dtype=float).reshape(-1, 3).ravel(), variant if variant not in ("2d", "2d-fortran", "column-of-matrix") else "plain")  # noqa: F821
+            a = a.reshape(-1, 3) if a.flags.c_contiguous or a.ndim > 1 else np.lib.stride_tricks.as_strided(
+                a, shape=(len(v), 3), strides=(3 * a.strides[0], a.strides[0]), writeable=a.flags.writeable)
+        else:
+            a, o = build(v, variant if variant not in ("2d", "2d-fortran") else "plain")  # noqa: F821
+        objs[k], owners[k] = a, o
+    return objs, owners
+
+
+def _check_reuse_pot(ctx: Ctx, cb, args, variant, calls):
+    """The same points / centres / coefficient / exponent array objects over several coulomb_potential calls."""
+    objs, owners = _build_pot_objs(args, variant)
+    orig = {k: v.copy() for k, v in objs.items()}
+    owners0 = {k: v.copy() for k, v in owners.items()}
+    for k in objs:
+        assert np.array_equal(orig[k].ravel(), np.array(args[k], dtype=float).ravel()), "variant construction changed the values"
+    snippet = SNIPPET_REUSE_POT.format(args={k: v for k, v in args.items() if v is not None}, variant=variant, calls=calls)
+    for n, (with_p, nz) in enumerate(calls):
+        kw = dict(objs) if with_p else {k: v for k, v in objs.items() if not k.endswith("_p")}
+        sub = dict(args) if with_p else dict(args, centers_p=None, coeffs_p=None, alphas_p=None)
+        ref = _pot_reference_exact(cb, sub, nz)
+        desc = f"the same argument arrays reused ({variant}; call {n + 1} of {calls[:n + 1]} [(with p arguments, normalized)])"
+        try:
+            with np.errstate(all="ignore"):
+                got = cb.coulomb_potential(**kw, normalized=nz)
+        except Exception as e:  # noqa: BLE001
+            ctx.fail("oracle", "coulomb.coulomb_potential:reused-arrays", f"{desc}: coulomb_potential raised {type(e).__name__}: {e} on well-shaped arguments with positive exponents",
+                     witness={"args": args, "variant": variant, "calls": calls[:n + 1]}, snippet=snippet)
+            return True
+        want, scale = ref
+        if got.shape != want.shape or bool(np.any(np.abs(got - want) > 1e-11 * scale + 1e-300)):
+            ctx.fail("oracle", "coulomb.coulomb_potential:reused-arrays",
+                     f"{desc}: coulomb_potential = {got.tolist()}, the coefficient-weighted sum of the single-centre potentials at the ORIGINAL coordinates is {want.tolist()}",
+                     witness={"args": args, "variant": variant, "calls": calls[:n + 1], "arrays_now": {k: v.tolist() for k, v in objs.items()}}, snippet=snippet)
+            return True
+        changed = [k for k in objs if not (np.array_equal(objs[k], orig[k]) and np.array_equal(owners[k], owners0[k]))]
+        if changed:
+            ctx.fail("oracle", "coulomb.coulomb_potential:reused-arrays", f"{desc}: the caller's array(s) {changed} were modified by the call",
+                     witness={"args": args, "variant": variant, "calls": calls[:n + 1], "arrays_now": {k: objs[k].tolist() for k in changed}}, snippet=snippet)
+            return True
+    return False
+
+
+def _reuse_pot_args(ctx: Ctx, thr):
+    ks, kp = ctx.rng.choice([1, 2, 3]), ctx.rng.choice([1, 2])
+    cs, co, al = _rand_gaussians(ctx, ks)
+    cp, cop, alp = _rand_gaussians(ctx, kp)
+    al = [min(a, 1e3) if ctx.rng.random() < 0.5 else 10.0 ** ctx.rng.uniform(3, 8) for a in al]
+    near = list(cs[-1]); near[ctx.rng.randrange(3)] += 1e-13
+    pts = [list(cs[0]), near, list(cp[0]), [0.0, 0.0, 0.0]] + [[ctx.rng.uniform(-3, 3) for _ in range(3)] for _ in range(2)]
+    return dict(points=pts, centers_s=cs, coeffs_s=[c or 1.0 for c in co], alphas_s=al, centers_p=cp, coeffs_p=[c or 0.5 for c in cop], alphas_p=alp)
+
+
+def _oracle_reuse(ctx: Ctx, cb, thr, large):
+    """(l) the same argument array reused across calls (a contraction on one radial grid; one set of point / centre arrays for several
+    potentials): float64 arrays with ndim >= 1 reach the library as the caller's own memory."""
+    for i, variant in enumerate(REUSE_VARIANTS * (3 if large else 1)):
+        ctx.tagc("oracle:reuse:scalar:" + variant)
+        _check_reuse_scalar(ctx, cb, _reuse_base(ctx, thr), variant, _reuse_calls(ctx, 6 if large else 4))
+    # the s function then the p function (and the other way round) on one array, same exponent
+    for first, second in (("s", "p"), ("p", "s"), ("s", "s"), ("p", "p")):
+        ctx.tagc("oracle:reuse:scalar:pair")
+        _check_reuse_scalar(ctx, cb, [0.0, 1e-13, 0.3, 1.0, 2.5], "plain", [(first, 2.0, True), (second, 2.0, True), (first, 0.5, False)])
+    for variant in ("plain", "readonly", "strided", "slice-of-larger", "reversed-view") * (2 if large else 1):
+        ctx.tagc("oracle:reuse:pot:" + variant)
+        calls = [(False, True), (True, True), (True, False), (False, False), (True, True)]
+        _check_reuse_pot(ctx, cb, _reuse_pot_args(ctx, thr), variant, calls[: (5 if large else 4)])
+
+
+def _corr_reuse(ctx: Ctx, cb, thr):
+    """Correspondence side of the same class: one array object through a sequence of calls, every answer against the generated
+    closed form (driver) at the original radii; the array unchanged."""
+    for variant in REUSE_VARIANTS:
+        base = _reuse_base(ctx, thr)
+        arr, owner = build(base, variant)  # noqa: F821
+        orig, owner0 = arr.copy(), owner.copy()
+        calls = _reuse_calls(ctx, 5)
+        lines = [f"C17.{kind} {f2b(float(r))} {f2b(a)} {int(nz)}" for kind, a, nz in calls for r in orig.ravel()]
+        answers = driver_batch(lines)
+        i = 0
+        for n, (kind, a, nz) in enumerate(calls):
+            fn = cb.coulomb_gaussian_s if kind == "s" else cb.coulomb_gaussian_p
+            ctx.count(["reuse", variant, n, kind, a, nz], nontrivial=True, tag=f"{kind}:reuse:{variant}")
+            try:
+                with np.errstate(all="ignore"):
+                    got = fn(arr, a, normalized=nz)
+            except Exception as e:  # noqa: BLE001
+                ctx.fail("corr", f"coulomb_gaussian_{kind}:reuse", f"coulomb_gaussian_{kind} on a {variant} float64 array (call {n + 1} on the same object) raised {type(e).__name__}: {e}",
+                         witness={"radii": orig.ravel().tolist(), "variant": variant, "calls": calls[:n + 1]})
+                i += orig.size
+                continue
+            for g, r in zip(np.asarray(got).ravel(), orig.ravel()):
+                tag, t = _ans(answers[i]); i += 1
+                if tag != "ok" or not close(float(g), t.flt(), rtol=RTOL):
+                    ctx.fail("corr", f"coulomb_gaussian_{kind}:reuse", f"coulomb_gaussian_{kind} on a {variant} float64 array, call {n + 1} on the same object: at the caller's radius "
+                             f"{float(r)!r}, alpha={a!r}, normalized={nz} the implementation returned {float(g)!r}, the generated model {t.flt() if tag == 'ok' else tag!r}",
+                             witness={"radii": orig.ravel().tolist(), "variant": variant, "calls": calls[:n + 1]})
+                    break
+        if not (np.array_equal(arr, orig) and np.array_equal(owner, owner0)):
+            ctx.fail("corr", "coulomb_gaussian:reuse:input-modified", f"the {variant} radial array was modified by the calls: {arr.ravel().tolist()} (was {orig.ravel().tolist()})",
+                     witness={"radii": orig.ravel().tolist(), "variant": variant, "calls": calls})
+
+
 def oracle(ctx: Ctx, budget: str):
     cb = importlib.import_module("grid.coulomb")
     utils = importlib.import_module("grid.utils")
@@ -1820,3 +2090,4 @@ def oracle(ctx: Ctx, budget: str):
         _check_load_history(ctx, cb, utils, raw_float, [(e, False)], "neither str nor int")
     # round 3
     _oracle_round3(ctx, cb, utils, thr, large)
+    _oracle_reuse(ctx, cb, thr, large)
